@@ -4,9 +4,9 @@
 From Coq Require Import ZArith List Bool Lia.
 From PTK Require Import Lib.Sx Lib.Py Model.Document Model.BufferEdit Model.C02_DocQueries
   Model.C08_ViOps Model.C08_TextObjects
-  Proofs.C02_Base Proofs.C02_Coords Proofs.C02_Words Proofs.C02_WordsExact Proofs.C02_FindExact
+  Proofs.C02_Base Proofs.C02_Coords Proofs.C02_Words Proofs.C02_WordsExact Proofs.C02_Find Proofs.C02_FindExact
   Proofs.C02_Boundaries
-  Proofs.C08_ViFacts Proofs.C08_Spans.
+  Proofs.BufferEditFacts Proofs.C08_ViFacts Proofs.C08_Spans.
 Import ListNotations.
 Open Scope Z_scope.
 
@@ -43,80 +43,249 @@ Proof.
   destruct (snd (translate_index_to_position d (s + dcur d)) =? 0); reflexivity.
 Qed.
 
+(* ---------------------------------------------------------------------- *)
+(* [spans st o a e]: the range the operators use for the object o in state st
+   is exactly the non-empty absolute span [a, e) inside the text.  Everything
+   the character-wise operators do is a function of that span
+   (spans_all_operators below); the per-command lemmas establish it for the
+   object a text-object function returns. *)
+Definition spans (st : vst) (o : tobj) (a e : Z) : Prop :=
+  charwise (ttype o) /\
+  bcur (vbuf st) + fst (operator_range (bdoc (vbuf st)) o) = a /\
+  bcur (vbuf st) + snd (operator_range (bdoc (vbuf st)) o) = e /\
+  0 <= a /\ a < e /\ e <= len (btext (vbuf st)).
+
+Lemma spans_intro st o f t :
+  let c := bcur (vbuf st) in
+  charwise (ttype o) -> operator_range (bdoc (vbuf st)) o = (f, t) ->
+  0 <= c + f -> f < t -> c + t <= len (btext (vbuf st)) ->
+  spans st o (c + f) (c + t).
+Proof.
+  intros c Hc Hr H0 Hlt Hle. unfold spans. rewrite Hr. cbn [fst snd]. fold c.
+  repeat split; try assumption; lia.
+Qed.
+
+Definition span_text (st : vst) (a e : Z) : str :=
+  firstn (Z.to_nat (e - a)) (skipn (Z.to_nat a) (btext (vbuf st))).
+Definition text_without (st : vst) (a e : Z) : str :=
+  firstn (Z.to_nat a) (btext (vbuf st)) ++ skipn (Z.to_nat e) (btext (vbuf st)).
+
+Lemma spans_removes st o ev a e : spans st o a e -> removes st (op_delete true false st o ev) a e.
+Proof.
+  intros (Hc & Ha & He & H0 & Hlt & Hle). unfold removes.
+  pose proof (op_delete_span true st o ev Hc) as G. cbv zeta in G. rewrite Ha, He in G.
+  exact (G H0 Hlt Hle).
+Qed.
+
+(* register yank (was missing next to op_yank_span) *)
+Lemma op_yank_reg_span st o ev k :
+  charwise (ttype o) ->
+  let b := vbuf st in
+  let a := bcur b + fst (operator_range (bdoc b) o) in
+  let e := bcur b + snd (operator_range (bdoc b) o) in
+  0 <= a -> a < e -> e <= len (btext b) ->
+  nth_error (ekeys ev) 1 = Some k -> is_regname k = true ->
+  op_yank_reg st o ev =
+  (0, mkvst b (vclip st)
+            (Some (k, mkcd (firstn (Z.to_nat (e - a)) (skipn (Z.to_nat a) (btext b))) 0)) (vins st)).
+Proof.
+  intros Hc b a e Ha Hae He Hk Hr. unfold op_yank_reg. rewrite Hk, Hr. fold b.
+  rewrite (to_cut_charwise b o Hc) by assumption. fold a e.
+  cbn [ctext]. rewrite c08_nonempty_len by (rewrite c08_len_mid; lia). reflexivity.
+Qed.
+
+(* ONE statement for every character-wise operator: once the object's span is
+   [a, e), d / c remove exactly text[a:e], leave the cursor at a and store
+   exactly text[a:e] (CHARACTERS) in the clipboard, c also enters insert
+   mode; the register variants of d / c do the same into the typed register and
+   leave the clipboard alone; y and its register variant store exactly text[a:e] and change neither text
+   nor cursor; the case operators rewrite exactly text[a:e] in place. *)
+Lemma spans_all_operators st o a e :
+  spans st o a e ->
+  (forall del ev,
+     op_delete del false st o ev =
+     (0, mkvst (mkbuf (text_without st a e) a) (Some (mkcd (span_text st a e) 0)) (vreg st)
+               (if del then vins st else true))) /\
+  (forall del ev k, nth_error (ekeys ev) 1 = Some k -> is_regname k = true ->
+     op_delete del true st o ev =
+     (0, mkvst (mkbuf (text_without st a e) a) (vclip st) (Some (k, mkcd (span_text st a e) 0))
+               (if del then vins st else true))) /\
+  (forall ev,
+     op_yank st o ev = (0, mkvst (vbuf st) (Some (mkcd (span_text st a e) 0)) (vreg st) (vins st))) /\
+  (forall ev k, nth_error (ekeys ev) 1 = Some k -> is_regname k = true ->
+     op_yank_reg st o ev =
+     (0, mkvst (vbuf st) (vclip st) (Some (k, mkcd (span_text st a e) 0)) (vins st))) /\
+  (forall F ev, Inv (vbuf st) ->
+     exists c',
+       op_transform F st o ev =
+       (0, with_buf st (mkbuf (firstn (Z.to_nat a) (btext (vbuf st)) ++ F (span_text st a e)
+                               ++ skipn (Z.to_nat e) (btext (vbuf st))) c'))).
+Proof.
+  intros (Hc & Ha & He & H0 & Hlt & Hle). unfold span_text, text_without.
+  split; [|split; [|split; [|split]]].
+  - intros del ev. pose proof (op_delete_span del st o ev Hc) as G. cbv zeta in G.
+    rewrite Ha, He in G. exact (G H0 Hlt Hle).
+  - intros del ev k Hk Hr. pose proof (op_delete_span_reg del st o ev k Hc) as G. cbv zeta in G.
+    rewrite Ha, He in G. exact (G H0 Hlt Hle Hk Hr).
+  - intros ev. pose proof (op_yank_span st o ev Hc) as G. cbv zeta in G.
+    rewrite Ha, He in G. exact (G H0 Hlt Hle).
+  - intros ev k Hk Hr. pose proof (op_yank_reg_span st o ev k Hc) as G. cbv zeta in G.
+    rewrite Ha, He in G. exact (G H0 Hlt Hle Hk Hr).
+  - intros F ev Hi. pose proof (op_transform_frame F st o ev Hi) as G. cbv zeta in G.
+    rewrite Ha, He in G. exact (G H0 Hlt Hle).
+Qed.
+
+(* ---------------------------------------------------------------------- *)
+(* The shapes of object: where the span is *)
+
 (* forward exclusive motion, far end not in column 0 *)
-Lemma d_forward st ev v :
+Lemma sp_forward st v :
   let c := bcur (vbuf st) in
   0 <= c -> 0 < v -> c + v <= len (btext (vbuf st)) -> colof st (c + v) <> 0 ->
-  removes st (op_delete true false st (mk1 v) ev) c (c + v).
+  spans st (mk1 v) c (c + v).
 Proof.
-  intros c Hc Hv Hl Hcol. unfold removes.
-  pose proof (operator_range_charwise (bdoc (vbuf st)) (mk1 v) (or_introl eq_refl)) as (H1 & _ & H3).
-  cbn [mk1 tstart tend ttype] in H1, H3. rewrite Z.min_r in H1 by lia. rewrite Z.max_l in H3 by lia.
-  destruct (H3 eq_refl) as [H|[_ [_ H]]].
-  - rewrite (op_delete_span true st (mk1 v) ev (or_introl eq_refl)); rewrite ?H1, ?H; fold c; try lia.
-    replace (c + 0) with c by lia. reflexivity.
-  - exfalso. apply Hcol. unfold colof. cbn [bdoc dcur] in H. fold c in H.
-    replace (c + v) with (v + c) by lia. exact H.
+  intros c Hc Hv Hl Hcol.
+  assert (Hr : operator_range (bdoc (vbuf st)) (mk1 v) = (0, v)).
+  { unfold mk1. rewrite range_excl_rev by lia. unfold colof in Hcol.
+    replace (v + dcur (bdoc (vbuf st))) with (c + v) by (cbn [bdoc dcur]; unfold c; lia).
+    destruct (snd (translate_index_to_position (bdoc (vbuf st)) (c + v)) =? 0) eqn:E2; [lia|reflexivity]. }
+  pose proof (spans_intro st (mk1 v) 0 v (or_introl eq_refl) Hr) as G. cbv zeta in G. fold c in G.
+  replace (c + 0) with c in G by lia. apply G; lia.
 Qed.
 
 (* forward exclusive motion whose far end is the first column of a line: the
    line ending before it stays *)
-Lemma d_forward_col0 st ev v :
+Lemma sp_forward_col0 st v :
   let c := bcur (vbuf st) in
   0 <= c -> 1 < v -> c + v <= len (btext (vbuf st)) -> colof st (c + v) = 0 ->
-  removes st (op_delete true false st (mk1 v) ev) c (c + v - 1).
+  spans st (mk1 v) c (c + v - 1).
 Proof.
-  intros c Hc Hv Hl Hcol. unfold removes.
+  intros c Hc Hv Hl Hcol.
   assert (Hr : operator_range (bdoc (vbuf st)) (mk1 v) = (0, v - 1)).
   { unfold mk1. rewrite range_excl_rev by lia. unfold colof in Hcol.
     replace (v + dcur (bdoc (vbuf st))) with (c + v) by (cbn [bdoc dcur]; unfold c; lia).
     rewrite Hcol. reflexivity. }
-  rewrite (op_delete_span true st (mk1 v) ev (or_introl eq_refl)); rewrite ?Hr; cbn [fst snd]; fold c; try lia.
-  replace (c + 0) with c by lia. replace (c + (v - 1)) with (c + v - 1) by lia. reflexivity.
+  pose proof (spans_intro st (mk1 v) 0 (v - 1) (or_introl eq_refl) Hr) as G. cbv zeta in G. fold c in G.
+  replace (c + 0) with c in G by lia. replace (c + (v - 1)) with (c + v - 1) in G by lia. apply G; lia.
 Qed.
 
 (* backward exclusive motion, cursor not in column 0 *)
-Lemma d_backward st ev v :
+Lemma sp_backward st v :
   let c := bcur (vbuf st) in
   v < 0 -> 0 <= c + v -> c <= len (btext (vbuf st)) -> colof st c <> 0 ->
-  removes st (op_delete true false st (mk1 v) ev) (c + v) c.
+  spans st (mk1 v) (c + v) c.
 Proof.
-  intros c Hv H0 Hl Hcol. unfold removes.
+  intros c Hv H0 Hl Hcol.
   assert (Hr : operator_range (bdoc (vbuf st)) (mk1 v) = (v, 0)).
   { unfold mk1. rewrite range_excl by lia. unfold colof in Hcol.
     replace (0 + dcur (bdoc (vbuf st))) with c by (cbn [bdoc dcur]; unfold c; lia).
     destruct (snd (translate_index_to_position (bdoc (vbuf st)) c) =? 0) eqn:E2; [lia|reflexivity]. }
-  rewrite (op_delete_span true st (mk1 v) ev (or_introl eq_refl)); rewrite ?Hr; cbn [fst snd]; fold c; try lia.
-  replace (c + 0) with c by lia. reflexivity.
+  pose proof (spans_intro st (mk1 v) v 0 (or_introl eq_refl) Hr) as G. cbv zeta in G. fold c in G.
+  replace (c + 0) with c in G by lia. apply G; lia.
 Qed.
 
-(* inclusive forward motion: through the character it lands on *)
-Lemma d_inclusive st ev v :
+(* backward exclusive motion from the first column of a line: the line ending
+   before the cursor stays (the column-0 rule looks at the larger end) *)
+Lemma sp_backward_col0 st v :
   let c := bcur (vbuf st) in
-  0 <= c -> 0 <= v -> c + v + 1 <= len (btext (vbuf st)) ->
-  removes st (op_delete true false st (mkto v 0 INCL) ev) c (c + v + 1).
+  v < -1 -> 0 <= c + v -> c <= len (btext (vbuf st)) -> colof st c = 0 ->
+  spans st (mk1 v) (c + v) (c - 1).
 Proof.
-  intros c Hc Hv Hl. unfold removes.
+  intros c Hv H0 Hl Hcol.
+  assert (Hr : operator_range (bdoc (vbuf st)) (mk1 v) = (v, -1)).
+  { unfold mk1. rewrite range_excl by lia. unfold colof in Hcol.
+    replace (0 + dcur (bdoc (vbuf st))) with c by (cbn [bdoc dcur]; unfold c; lia).
+    rewrite Hcol. reflexivity. }
+  pose proof (spans_intro st (mk1 v) v (-1) (or_introl eq_refl) Hr) as G. cbv zeta in G. fold c in G.
+  replace (c + -1) with (c - 1) in G by lia. apply G; lia.
+Qed.
+
+(* inclusive motion, forwards or backwards: from the nearer end through the
+   character at the farther end *)
+Lemma sp_inclusive st v :
+  let c := bcur (vbuf st) in
+  0 <= c + Z.min v 0 -> c + Z.max v 0 + 1 <= len (btext (vbuf st)) ->
+  spans st (mkto v 0 INCL) (c + Z.min v 0) (c + Z.max v 0 + 1).
+Proof.
+  intros c H0 Hl.
   pose proof (operator_range_charwise (bdoc (vbuf st)) (mkto v 0 INCL) (or_intror eq_refl)) as (H1 & H2 & _).
-  cbn [tstart tend ttype] in H1, H2. rewrite Z.min_r in H1 by lia. rewrite Z.max_l in H2 by lia.
-  rewrite (op_delete_span true st (mkto v 0 INCL) ev (or_intror eq_refl)); rewrite ?H1, ?(H2 eq_refl); fold c; try lia.
-  replace (c + 0) with c by lia. replace (c + (v + 1)) with (c + v + 1) by lia. reflexivity.
+  cbn [tstart tend ttype] in H1, H2. specialize (H2 eq_refl).
+  destruct (operator_range (bdoc (vbuf st)) (mkto v 0 INCL)) as [f t] eqn:Er. cbn [fst snd] in H1, H2.
+  pose proof (spans_intro st (mkto v 0 INCL) f t (or_intror eq_refl) Er) as G. cbv zeta in G. fold c in G.
+  rewrite H1, H2 in G. replace (c + (Z.max v 0 + 1)) with (c + Z.max v 0 + 1) in G by lia.
+  apply G; lia.
 Qed.
 
 (* two-ended exclusive object around the cursor, far end not in column 0 *)
-Lemma d_object st ev s e :
+Lemma sp_object st s e :
   let c := bcur (vbuf st) in
-  s <= 0 -> 0 < e -> 0 <= c + s -> c + e <= len (btext (vbuf st)) -> colof st (c + e) <> 0 ->
-  removes st (op_delete true false st (mkto s e EXCL) ev) (c + s) (c + e).
+  s < e -> 0 <= c + s -> c + e <= len (btext (vbuf st)) -> colof st (c + e) <> 0 ->
+  spans st (mkto s e EXCL) (c + s) (c + e).
 Proof.
-  intros c Hs He H0 Hl Hcol. unfold removes.
+  intros c Hse H0 Hl Hcol.
   assert (Hr : operator_range (bdoc (vbuf st)) (mkto s e EXCL) = (s, e)).
   { rewrite range_excl by lia. unfold colof in Hcol.
     replace (e + dcur (bdoc (vbuf st))) with (c + e) by (cbn [bdoc dcur]; unfold c; lia).
     destruct (snd (translate_index_to_position (bdoc (vbuf st)) (c + e)) =? 0) eqn:E2; [lia|reflexivity]. }
-  rewrite (op_delete_span true st (mkto s e EXCL) ev (or_introl eq_refl)); rewrite ?Hr; cbn [fst snd]; fold c; try lia.
-  reflexivity.
+  pose proof (spans_intro st (mkto s e EXCL) s e (or_introl eq_refl) Hr) as G. cbv zeta in G. fold c in G.
+  apply G; lia.
 Qed.
+
+(* ... whose far end is the first column of a line: the line ending before it stays *)
+Lemma sp_object_col0 st s e :
+  let c := bcur (vbuf st) in
+  s < e - 1 -> 0 <= c + s -> c + e <= len (btext (vbuf st)) -> colof st (c + e) = 0 ->
+  spans st (mkto s e EXCL) (c + s) (c + e - 1).
+Proof.
+  intros c Hse H0 Hl Hcol.
+  assert (Hr : operator_range (bdoc (vbuf st)) (mkto s e EXCL) = (s, e - 1)).
+  { rewrite range_excl by lia. unfold colof in Hcol.
+    replace (e + dcur (bdoc (vbuf st))) with (c + e) by (cbn [bdoc dcur]; unfold c; lia).
+    rewrite Hcol. reflexivity. }
+  pose proof (spans_intro st (mkto s e EXCL) s (e - 1) (or_introl eq_refl) Hr) as G. cbv zeta in G. fold c in G.
+  replace (c + (e - 1)) with (c + e - 1) in G by lia. apply G; lia.
+Qed.
+
+(* the same for the representative operator d (the statements of round 4) *)
+Lemma d_forward st ev v :
+  let c := bcur (vbuf st) in
+  0 <= c -> 0 < v -> c + v <= len (btext (vbuf st)) -> colof st (c + v) <> 0 ->
+  removes st (op_delete true false st (mk1 v) ev) c (c + v).
+Proof. intros c H1 H2 H3 H4. apply spans_removes. apply sp_forward; assumption. Qed.
+
+Lemma d_forward_col0 st ev v :
+  let c := bcur (vbuf st) in
+  0 <= c -> 1 < v -> c + v <= len (btext (vbuf st)) -> colof st (c + v) = 0 ->
+  removes st (op_delete true false st (mk1 v) ev) c (c + v - 1).
+Proof. intros c H1 H2 H3 H4. apply spans_removes. apply sp_forward_col0; assumption. Qed.
+
+Lemma d_backward st ev v :
+  let c := bcur (vbuf st) in
+  v < 0 -> 0 <= c + v -> c <= len (btext (vbuf st)) -> colof st c <> 0 ->
+  removes st (op_delete true false st (mk1 v) ev) (c + v) c.
+Proof. intros c H1 H2 H3 H4. apply spans_removes. apply sp_backward; assumption. Qed.
+
+Lemma sp_inclusive_fwd st v :
+  let c := bcur (vbuf st) in
+  0 <= c -> 0 <= v -> c + v + 1 <= len (btext (vbuf st)) ->
+  spans st (mkto v 0 INCL) c (c + v + 1).
+Proof.
+  intros c H1 H2 H3.
+  pose proof (sp_inclusive st v) as G. cbv zeta in G. fold c in G.
+  rewrite Z.min_r, Z.max_l in G by lia. replace (c + 0) with c in G by lia. apply G; lia.
+Qed.
+
+Lemma d_inclusive st ev v :
+  let c := bcur (vbuf st) in
+  0 <= c -> 0 <= v -> c + v + 1 <= len (btext (vbuf st)) ->
+  removes st (op_delete true false st (mkto v 0 INCL) ev) c (c + v + 1).
+Proof. intros c H1 H2 H3. apply spans_removes. apply sp_inclusive_fwd; assumption. Qed.
+
+Lemma d_object st ev s e :
+  let c := bcur (vbuf st) in
+  s <= 0 -> 0 < e -> 0 <= c + s -> c + e <= len (btext (vbuf st)) -> colof st (c + e) <> 0 ->
+  removes st (op_delete true false st (mkto s e EXCL) ev) (c + s) (c + e).
+Proof. intros c H1 H2 H3 H4 H5. apply spans_removes. apply sp_object; try assumption; lia. Qed.
 
 (* ---------------------------------------------------------------------- *)
 (* Columns on the cursor line (from C02's coordinate lemmas) *)
@@ -197,10 +366,10 @@ Lemma at_doc_bdoc st d : at_doc st d -> bdoc (vbuf st) = d.
 Proof. intros H. rewrite H. destruct d; reflexivity. Qed.
 
 (* d$ on a non-empty rest of line: exactly the rest of the cursor line goes *)
-Lemma cmd_d_dollar st d n hc ev :
+Lemma cmd_dollar st d n hc :
   at_doc st d -> valid d -> 0 < len (current_line_after_cursor d) ->
   exists o, text_object T_dollar d n hc = TO o false /\
-    removes st (op_delete true false st o ev) (dcur d) (dcur d + len (current_line_after_cursor d)).
+    spans st o (dcur d) (dcur d + len (current_line_after_cursor d)).
 Proof.
   intros Ha Hv Hk. destruct (span_dollar d n hc Hv) as (Ht & _ & _).
   set (k := len (current_line_after_cursor d)) in *.
@@ -210,15 +379,15 @@ Proof.
   { destruct (C02c_line_parts d Hv) as (_ & _ & _ & (q & Hq & _)).
     pose proof (f_equal len Hq) as Hl. rewrite (ta_skipn d Hv), len_app, len_skipn in Hl.
     pose proof (len_nonneg q). destruct Hv. fold k in Hl. lia. }
-  pose proof (d_forward st ev k) as G. cbv zeta in G. rewrite ?(at_doc_cur st d Ha), ?(at_doc_text st d Ha) in G.
+  pose proof (sp_forward st k) as G. cbv zeta in G. rewrite ?(at_doc_cur st d Ha), ?(at_doc_text st d Ha) in G.
   apply G; try lia; [destruct Hv; lia|]. unfold colof. rewrite (at_doc_bdoc st d Ha). exact Hcol.
 Qed.
 
 (* d0 with something before the cursor on its line: exactly that goes *)
-Lemma cmd_d_zero st d n hc ev :
+Lemma cmd_zero st d n hc :
   at_doc st d -> valid d -> 0 < len (current_line_before_cursor d) ->
   exists o, text_object T_zero d n hc = TO o false /\
-    removes st (op_delete true false st o ev) (dcur d - len (current_line_before_cursor d)) (dcur d).
+    spans st o (dcur d - len (current_line_before_cursor d)) (dcur d).
 Proof.
   intros Ha Hv Hk. destruct (span_zero d n hc Hv) as (Ht & _).
   set (k := len (current_line_before_cursor d)) in *.
@@ -228,7 +397,7 @@ Proof.
   { destruct (C02c_line_parts d Hv) as (_ & _ & (p & Hp & _) & _).
     pose proof (f_equal len Hp) as Hl. rewrite (tb_firstn d Hv), len_app, len_firstn in Hl.
     pose proof (len_nonneg p). destruct Hv. fold k in Hl. lia. }
-  pose proof (d_backward st ev (- k)) as G. cbv zeta in G. rewrite ?(at_doc_cur st d Ha), ?(at_doc_text st d Ha) in G.
+  pose proof (sp_backward st (- k)) as G. cbv zeta in G. rewrite ?(at_doc_cur st d Ha), ?(at_doc_text st d Ha) in G.
   replace (dcur d - k) with (dcur d + - k) by lia.
   apply G; try lia; [destruct Hv; lia|]. unfold colof. rewrite (at_doc_bdoc st d Ha). exact Hcol.
 Qed.
@@ -236,6 +405,166 @@ Qed.
 (* dw / dW: up to the count-th next word start j; when j is the first column
    of a line the line ending before it stays (and nothing happens if that line
    ending is all there is) *)
+Lemma cmd_w st d n hc W l j :
+  at_doc st d -> valid d -> 1 <= n ->
+  enumerates (fun j => dcur d < j /\ word_start (word_cls W) (dtext d) j) l ->
+  pick l n = Some j ->
+  text_object (T_w W) d n hc = TO (mk1 (j - dcur d)) false /\
+  (snd (translate_index_to_position d j) <> 0 ->
+     spans st (mk1 (j - dcur d)) (dcur d) j) /\
+  (snd (translate_index_to_position d j) = 0 -> dcur d + 1 < j ->
+     spans st (mk1 (j - dcur d)) (dcur d) (j - 1)).
+Proof.
+  intros Ha Hv Hn Hl Hp. pose proof (span_w d n hc W l Hv Hn Hl) as Ht. rewrite Hp in Ht.
+  split; [exact Ht|].
+  assert (Hin : dcur d < j /\ j <= len (dtext d)).
+  { assert (In j l) by (unfold pick in Hp; destruct (n <? 1); [discriminate|]; eapply nth_error_In; exact Hp).
+    apply (proj2 Hl) in H. destruct H as [H1 [H2 _]]. apply clsat_nz_bounds in H2. lia. }
+  destruct Hin as [Hin Hj].
+  pose proof Hv as [Hv0 Hv1].
+  split; intros Hc.
+  - pose proof (sp_forward st (j - dcur d)) as G. cbv zeta in G. rewrite ?(at_doc_cur st d Ha), ?(at_doc_text st d Ha) in G.
+    replace j with (dcur d + (j - dcur d)) at 2 by lia.
+    apply G; try lia. unfold colof. rewrite (at_doc_bdoc st d Ha).
+    replace (dcur d + (j - dcur d)) with j by lia. exact Hc.
+  - intros Hgt.
+    pose proof (sp_forward_col0 st (j - dcur d)) as G. cbv zeta in G. rewrite ?(at_doc_cur st d Ha), ?(at_doc_text st d Ha) in G.
+    replace (j - 1) with (dcur d + (j - dcur d) - 1) by lia.
+    apply G; try lia. unfold colof. rewrite (at_doc_bdoc st d Ha).
+    replace (dcur d + (j - dcur d)) with j by lia. exact Hc.
+Qed.
+
+(* db / dB with the cursor not in column 0: back to the count-th previous word start *)
+Lemma cmd_b st d n hc W l j :
+  at_doc st d -> valid d -> 1 <= n ->
+  enumerates (fun j => j < dcur d /\ word_start (word_cls W) (dtext d) j) l ->
+  pick (rev l) n = Some j ->
+  0 < len (current_line_before_cursor d) ->
+  text_object (T_b W) d n hc = TO (mk1 (j - dcur d)) false /\
+  spans st (mk1 (j - dcur d)) j (dcur d).
+Proof.
+  intros Ha Hv Hn Hl Hp Hk. pose proof (span_b d n hc W l Hv Hn Hl) as Ht. rewrite Hp in Ht.
+  split; [exact Ht|].
+  assert (Hin : j < dcur d /\ 0 <= j).
+  { assert (In j l).
+    { apply in_rev. unfold pick in Hp. destruct (n <? 1); [discriminate|]. eapply nth_error_In; exact Hp. }
+    apply (proj2 Hl) in H. destruct H as [H1 H2]. apply word_start_nonneg in H2. lia. }
+  destruct Hin as [Hin Hj].
+  pose proof Hv as [Hv0 Hv1].
+  pose proof (sp_backward st (j - dcur d)) as G. cbv zeta in G. rewrite ?(at_doc_cur st d Ha), ?(at_doc_text st d Ha) in G.
+  replace j with (dcur d + (j - dcur d)) at 2 by lia.
+  apply G; try lia. unfold colof. rewrite (at_doc_bdoc st d Ha). apply col_of_cursor; assumption.
+Qed.
+
+(* de / dE: through the last character of the count-th word end j *)
+Lemma cmd_e st d n hc W l j :
+  at_doc st d -> valid d -> 1 <= n ->
+  enumerates (fun j => dcur d + 1 < j /\ word_end (word_cls W) (dtext d) j) l ->
+  pick l n = Some j ->
+  text_object (T_e W) d n hc = TO (mkto (j - 1 - dcur d) 0 INCL) false /\
+  spans st (mkto (j - 1 - dcur d) 0 INCL) (dcur d) j.
+Proof.
+  intros Ha Hv Hn Hl Hp. pose proof (span_e d n hc W l Hv Hn Hl) as Ht. rewrite Hp in Ht.
+  split; [exact Ht|].
+  assert (Hin : dcur d + 1 < j /\ j <= len (dtext d)).
+  { assert (In j l) by (unfold pick in Hp; destruct (n <? 1); [discriminate|]; eapply nth_error_In; exact Hp).
+    apply (proj2 Hl) in H. destruct H as [H1 [H2 _]]. apply clsat_nz_bounds in H2. lia. }
+  destruct Hin as [Hin Hj].
+  pose proof Hv as [Hv0 Hv1].
+  pose proof (sp_inclusive_fwd st (j - 1 - dcur d)) as G. cbv zeta in G. rewrite ?(at_doc_cur st d Ha), ?(at_doc_text st d Ha) in G.
+  replace j with (dcur d + (j - 1 - dcur d) + 1) at 2 by lia.
+  apply G; lia.
+Qed.
+
+(* dfx: through the count-th x after the cursor on the cursor line (p = its
+   offset in the text after the character under the cursor) *)
+Lemma cmd_f st d n hc ch l p :
+  at_doc st d -> valid d ->
+  greedy (occ ceq_exact [ch] (find_scanned d true false)) (fstep [ch]) 0 l ->
+  0 < len (current_line_after_cursor d) -> nth_match l n = Some p ->
+  text_object (T_f ch) d n hc = TO (mkto (p + 1) 0 INCL) false /\
+  spans st (mkto (p + 1) 0 INCL) (dcur d) (dcur d + p + 2) /\
+  nth_error (dtext d) (Z.to_nat (dcur d + p + 1)) = Some ch /\
+  p + 2 <= len (current_line_after_cursor d).
+Proof.
+  intros Ha Hv G0 Hk Hp.
+  (* p is a member of the greedy list: 0 <= p and ch occurs at offset p of the scanned text *)
+  apply nth_match_in in Hp as Hin.
+  assert (Hs : 0 <= fstep [ch]) by (unfold fstep; lia).
+  destruct (greedy_members _ _ Hs _ _ G0 p Hin) as [Hp0 [Hocc Hfit]].
+  assert (Hsc : find_scanned d true false = skipn 1 (current_line_after_cursor d)).
+  { unfold find_scanned. rewrite slice_from_in_range by lia. reflexivity. }
+  rewrite Hsc in Hocc, Hfit. rewrite len_skipn in Hfit. change (len [ch]) with 1 in Hfit.
+  assert (Hp2 : p + 2 <= len (current_line_after_cursor d)) by lia.
+  destruct (C02c_line_parts d Hv) as (_ & _ & _ & (q & Hq & _)).
+  assert (Hlen : dcur d + len (current_line_after_cursor d) <= len (dtext d)).
+  { pose proof (f_equal len Hq) as Hl. rewrite (ta_skipn d Hv), len_app, len_skipn in Hl.
+    pose proof (len_nonneg q). destruct Hv. lia. }
+  pose proof (span_f d n hc ch l G0) as Ht.
+  destruct (len (current_line_after_cursor d) =? 0) eqn:E; [lia|]. rewrite Hp in Ht.
+  destruct (p + 1 =? 0) eqn:E2; [lia|]. split; [exact Ht|].
+  pose proof Hv as [Hv0 Hv1].
+  split.
+  { pose proof (sp_inclusive_fwd st (p + 1)) as G. cbv zeta in G. rewrite ?(at_doc_cur st d Ha), ?(at_doc_text st d Ha) in G.
+    replace (dcur d + p + 2) with (dcur d + (p + 1) + 1) by lia. apply G; lia. }
+  split; [|exact Hp2].
+  (* the character there is ch *)
+  destruct Hocc as [_ Hsw].
+  destruct (skipn (Z.to_nat p) (skipn 1 (current_line_after_cursor d))) as [|x r] eqn:Es; [discriminate Hsw|].
+  cbn [startswith_by] in Hsw. apply andb_prop in Hsw as [Hx _]. unfold ceq_exact in Hx.
+  apply Z.eqb_eq in Hx. subst x.
+  assert (H1 : nth_error (current_line_after_cursor d) (1 + Z.to_nat p) = Some ch).
+  { rewrite <- c08_nth_error_skipn.
+    pose proof (c08_nth_error_skipn (skipn 1 (current_line_after_cursor d)) (Z.to_nat p) 0) as H.
+    rewrite Es in H. cbn [nth_error] in H. rewrite Nat.add_0_r in H. symmetry. exact H. }
+  replace (Z.to_nat (dcur d + p + 1)) with (Z.to_nat (dcur d) + (1 + Z.to_nat p))%nat by lia.
+  rewrite <- c08_nth_error_skipn, <- (ta_skipn d Hv), Hq.
+  rewrite nth_error_app1 by (unfold len in Hp2; lia). exact H1.
+Qed.
+
+
+(* diw / diW on a word: exactly the maximal run of the cursor character's
+   class goes (C02y_boundaries_is_run) *)
+Lemma cmd_iw st d n hc W s e :
+  at_doc st d -> valid d ->
+  find_boundaries_of_current_word d W false false = (s, e) -> 0 < e ->
+  text_object (T_word W false) d n hc = TO (mkto s e EXCL) false /\
+  is_run (word_cls W) (dtext d) (dcur d + s) (dcur d + e) /\
+  spans st (mkto s e EXCL) (dcur d + s) (dcur d + e).
+Proof.
+  intros Ha Hv Hb He.
+  split.
+  { cbn [text_object]. rewrite Hb. destruct (e =? 0) eqn:E; [lia|]. rewrite andb_false_r. reflexivity. }
+  assert (Hne : (s, e) <> (0, 0)) by (intros H; injection H; lia).
+  pose proof (C02y_boundaries_is_run d W s e Hv Hb Hne) as Hrun. split; [exact Hrun|].
+  destruct (C02w_boundaries_in_bounds d W false false s e Hv Hb) as [[Hs0 Hs1] [He0 He1]].
+  destruct Hrun as ([Hr0 _] & Hr1 & _).
+  pose proof (sp_object st s e) as G. cbv zeta in G. rewrite ?(at_doc_cur st d Ha), ?(at_doc_text st d Ha) in G.
+  apply G; try lia. unfold colof. rewrite (at_doc_bdoc st d Ha).
+  apply col_after_cursor; [exact Hv|lia].
+Qed.
+
+(* ---------------------------------------------------------------------- *)
+(* The round-4 statements for the representative operator d are instances *)
+
+Lemma cmd_d_dollar st d n hc ev :
+  at_doc st d -> valid d -> 0 < len (current_line_after_cursor d) ->
+  exists o, text_object T_dollar d n hc = TO o false /\
+    removes st (op_delete true false st o ev) (dcur d) (dcur d + len (current_line_after_cursor d)).
+Proof.
+  intros Ha Hv Hk. destruct (cmd_dollar st d n hc Ha Hv Hk) as (o & H1 & H2).
+  exists o. split; [exact H1|apply spans_removes; exact H2].
+Qed.
+
+Lemma cmd_d_zero st d n hc ev :
+  at_doc st d -> valid d -> 0 < len (current_line_before_cursor d) ->
+  exists o, text_object T_zero d n hc = TO o false /\
+    removes st (op_delete true false st o ev) (dcur d - len (current_line_before_cursor d)) (dcur d).
+Proof.
+  intros Ha Hv Hk. destruct (cmd_zero st d n hc Ha Hv Hk) as (o & H1 & H2).
+  exists o. split; [exact H1|apply spans_removes; exact H2].
+Qed.
+
 Lemma cmd_d_w st d n hc W l j ev :
   at_doc st d -> valid d -> 1 <= n ->
   enumerates (fun j => dcur d < j /\ word_start (word_cls W) (dtext d) j) l ->
@@ -246,26 +575,10 @@ Lemma cmd_d_w st d n hc W l j ev :
   (snd (translate_index_to_position d j) = 0 -> dcur d + 1 < j ->
      removes st (op_delete true false st (mk1 (j - dcur d)) ev) (dcur d) (j - 1)).
 Proof.
-  intros Ha Hv Hn Hl Hp. pose proof (span_w d n hc W l Hv Hn Hl) as Ht. rewrite Hp in Ht.
-  split; [exact Ht|].
-  assert (Hin : dcur d < j /\ j <= len (dtext d)).
-  { assert (In j l) by (unfold pick in Hp; destruct (n <? 1); [discriminate|]; eapply nth_error_In; exact Hp).
-    apply (proj2 Hl) in H. destruct H as [H1 [H2 _]]. apply clsat_nz_bounds in H2. lia. }
-  destruct Hin as [Hin Hj].
-  pose proof Hv as [Hv0 Hv1].
-  split; intros Hc.
-  - pose proof (d_forward st ev (j - dcur d)) as G. cbv zeta in G. rewrite ?(at_doc_cur st d Ha), ?(at_doc_text st d Ha) in G.
-    replace j with (dcur d + (j - dcur d)) at 2 by lia.
-    apply G; try lia. unfold colof. rewrite (at_doc_bdoc st d Ha).
-    replace (dcur d + (j - dcur d)) with j by lia. exact Hc.
-  - intros Hgt.
-    pose proof (d_forward_col0 st ev (j - dcur d)) as G. cbv zeta in G. rewrite ?(at_doc_cur st d Ha), ?(at_doc_text st d Ha) in G.
-    replace (j - 1) with (dcur d + (j - dcur d) - 1) by lia.
-    apply G; try lia. unfold colof. rewrite (at_doc_bdoc st d Ha).
-    replace (dcur d + (j - dcur d)) with j by lia. exact Hc.
+  intros Ha Hv Hn Hl Hp. destruct (cmd_w st d n hc W l j Ha Hv Hn Hl Hp) as (H1 & H2 & H3).
+  split; [exact H1|]. split; [intros Hc|intros Hc Hg]; apply spans_removes; auto.
 Qed.
 
-(* db / dB with the cursor not in column 0: back to the count-th previous word start *)
 Lemma cmd_d_b st d n hc W l j ev :
   at_doc st d -> valid d -> 1 <= n ->
   enumerates (fun j => j < dcur d /\ word_start (word_cls W) (dtext d) j) l ->
@@ -274,20 +587,10 @@ Lemma cmd_d_b st d n hc W l j ev :
   text_object (T_b W) d n hc = TO (mk1 (j - dcur d)) false /\
   removes st (op_delete true false st (mk1 (j - dcur d)) ev) j (dcur d).
 Proof.
-  intros Ha Hv Hn Hl Hp Hk. pose proof (span_b d n hc W l Hv Hn Hl) as Ht. rewrite Hp in Ht.
-  split; [exact Ht|].
-  assert (Hin : j < dcur d /\ 0 <= j).
-  { assert (In j l).
-    { apply in_rev. unfold pick in Hp. destruct (n <? 1); [discriminate|]. eapply nth_error_In; exact Hp. }
-    apply (proj2 Hl) in H. destruct H as [H1 H2]. apply word_start_nonneg in H2. lia. }
-  destruct Hin as [Hin Hj].
-  pose proof Hv as [Hv0 Hv1].
-  pose proof (d_backward st ev (j - dcur d)) as G. cbv zeta in G. rewrite ?(at_doc_cur st d Ha), ?(at_doc_text st d Ha) in G.
-  replace j with (dcur d + (j - dcur d)) at 2 by lia.
-  apply G; try lia. unfold colof. rewrite (at_doc_bdoc st d Ha). apply col_of_cursor; assumption.
+  intros Ha Hv Hn Hl Hp Hk. destruct (cmd_b st d n hc W l j Ha Hv Hn Hl Hp Hk) as (H1 & H2).
+  split; [exact H1|apply spans_removes; exact H2].
 Qed.
 
-(* de / dE: through the last character of the count-th word end j *)
 Lemma cmd_d_e st d n hc W l j ev :
   at_doc st d -> valid d -> 1 <= n ->
   enumerates (fun j => dcur d + 1 < j /\ word_end (word_cls W) (dtext d) j) l ->
@@ -295,38 +598,23 @@ Lemma cmd_d_e st d n hc W l j ev :
   text_object (T_e W) d n hc = TO (mkto (j - 1 - dcur d) 0 INCL) false /\
   removes st (op_delete true false st (mkto (j - 1 - dcur d) 0 INCL) ev) (dcur d) j.
 Proof.
-  intros Ha Hv Hn Hl Hp. pose proof (span_e d n hc W l Hv Hn Hl) as Ht. rewrite Hp in Ht.
-  split; [exact Ht|].
-  assert (Hin : dcur d + 1 < j /\ j <= len (dtext d)).
-  { assert (In j l) by (unfold pick in Hp; destruct (n <? 1); [discriminate|]; eapply nth_error_In; exact Hp).
-    apply (proj2 Hl) in H. destruct H as [H1 [H2 _]]. apply clsat_nz_bounds in H2. lia. }
-  destruct Hin as [Hin Hj].
-  pose proof Hv as [Hv0 Hv1].
-  pose proof (d_inclusive st ev (j - 1 - dcur d)) as G. cbv zeta in G. rewrite ?(at_doc_cur st d Ha), ?(at_doc_text st d Ha) in G.
-  replace j with (dcur d + (j - 1 - dcur d) + 1) at 2 by lia.
-  apply G; lia.
+  intros Ha Hv Hn Hl Hp. destruct (cmd_e st d n hc W l j Ha Hv Hn Hl Hp) as (H1 & H2).
+  split; [exact H1|apply spans_removes; exact H2].
 Qed.
 
-(* dfx: through the count-th x after the cursor on the cursor line (p = its
-   offset in the text after the character under the cursor) *)
+(* (round 6: the hypotheses 0 <= p and cursor + p + 2 <= len are gone - they
+   follow from membership in the greedy list) *)
 Lemma cmd_d_f st d n hc ch l p ev :
   at_doc st d -> valid d ->
   greedy (occ ceq_exact [ch] (find_scanned d true false)) (fstep [ch]) 0 l ->
-  0 < len (current_line_after_cursor d) -> nth_match l n = Some p -> 0 <= p ->
-  dcur d + p + 2 <= len (dtext d) ->
+  0 < len (current_line_after_cursor d) -> nth_match l n = Some p ->
   text_object (T_f ch) d n hc = TO (mkto (p + 1) 0 INCL) false /\
   removes st (op_delete true false st (mkto (p + 1) 0 INCL) ev) (dcur d) (dcur d + p + 2).
 Proof.
-  intros Ha Hv G0 Hk Hp Hp0 Hlen. pose proof (span_f d n hc ch l G0) as Ht.
-  destruct (len (current_line_after_cursor d) =? 0) eqn:E; [lia|]. rewrite Hp in Ht.
-  destruct (p + 1 =? 0) eqn:E2; [lia|]. split; [exact Ht|].
-  pose proof Hv as [Hv0 Hv1].
-  pose proof (d_inclusive st ev (p + 1)) as G. cbv zeta in G. rewrite ?(at_doc_cur st d Ha), ?(at_doc_text st d Ha) in G.
-  replace (dcur d + p + 2) with (dcur d + (p + 1) + 1) by lia. apply G; lia.
+  intros Ha Hv G0 Hk Hp. destruct (cmd_f st d n hc ch l p Ha Hv G0 Hk Hp) as (H1 & H2 & _).
+  split; [exact H1|apply spans_removes; exact H2].
 Qed.
 
-(* diw / diW on a word: exactly the maximal run of the cursor character's
-   class goes (C02y_boundaries_is_run) *)
 Lemma cmd_d_iw st d n hc W s e ev :
   at_doc st d -> valid d ->
   find_boundaries_of_current_word d W false false = (s, e) -> 0 < e ->
@@ -334,14 +622,6 @@ Lemma cmd_d_iw st d n hc W s e ev :
   is_run (word_cls W) (dtext d) (dcur d + s) (dcur d + e) /\
   removes st (op_delete true false st (mkto s e EXCL) ev) (dcur d + s) (dcur d + e).
 Proof.
-  intros Ha Hv Hb He.
-  split.
-  { cbn [text_object]. rewrite Hb. destruct (e =? 0) eqn:E; [lia|]. rewrite andb_false_r. reflexivity. }
-  assert (Hne : (s, e) <> (0, 0)) by (intros H; injection H; lia).
-  pose proof (C02y_boundaries_is_run d W s e Hv Hb Hne) as Hrun. split; [exact Hrun|].
-  destruct (C02w_boundaries_in_bounds d W false false s e Hv Hb) as [[Hs0 Hs1] [He0 He1]].
-  destruct Hrun as ([Hr0 _] & Hr1 & _).
-  pose proof (d_object st ev s e) as G. cbv zeta in G. rewrite ?(at_doc_cur st d Ha), ?(at_doc_text st d Ha) in G.
-  apply G; try lia. unfold colof. rewrite (at_doc_bdoc st d Ha).
-  apply col_after_cursor; [exact Hv|lia].
+  intros Ha Hv Hb He. destruct (cmd_iw st d n hc W s e Ha Hv Hb He) as (H1 & H2 & H3).
+  split; [exact H1|]. split; [exact H2|apply spans_removes; exact H3].
 Qed.
